@@ -21,6 +21,7 @@ func init() {
 type c16Op struct {
 	stream bool // stream reader (else buffer reader)
 	binary bool // ReadBinary (else ReadString)
+	msg    bool // the value is the method name of a message header (ReadMessageBegin)
 	val    []byte
 }
 
@@ -70,7 +71,11 @@ func runC16(c *sim.Ctx) {
 			n = 131072 + st.Choose(3)*1000
 			c.Count("probe.len_gt_128k")
 		}
-		ops = append(ops, c16Op{stream: st.Chance(1, 2), binary: st.Chance(1, 2), val: sim.KeyedBytes(key+uint64(i)*13, 0, n)})
+		op := c16Op{stream: st.Chance(1, 2), binary: st.Chance(1, 2), val: sim.KeyedBytes(key+uint64(i)*13, 0, n)}
+		if st.Chance(1, 6) {
+			op.msg, op.binary = true, false
+		}
+		ops = append(ops, op)
 		script = append(script, st.Pick(4, 3, 3, 2))
 	}
 	scfg := sim.RandomSourceCfg(cfg, 0)
@@ -154,7 +159,11 @@ func c16Pass(c *sim.Ctx, ops []c16Op, script []int, scfg sim.SourceCfg, span boo
 		}
 		e := &ref.Encoder{}
 		for _, op := range ops[i:j] {
-			e.LenBytes(op.val)
+			if op.msg {
+				e.Bytes(ref.EncodeMessageBegin(op.val, 1, 7))
+			} else {
+				e.LenBytes(op.val)
+			}
 		}
 		input := e.Buf
 		var lastBin int = -1
@@ -167,13 +176,18 @@ func c16Pass(c *sim.Ctx, ops []c16Op, script []int, scfg sim.SourceCfg, span boo
 				var err error
 				var s string
 				var b []byte
-				if op.binary {
+				wantL := 4 + len(op.val)
+				if op.msg {
+					wantL += 8
+					c.GuardNoOOM("ReadMessageBegin/Binary", func() { s, _, _, l, err = B.ReadMessageBegin(in[off:]) })
+					b = []byte(s)
+				} else if op.binary {
 					c.GuardNoOOM("ReadBinary/Binary", func() { b, l, err = B.ReadBinary(in[off:]) })
 				} else {
 					c.GuardNoOOM("ReadString/Binary", func() { s, l, err = B.ReadString(in[off:]) })
 					b = []byte(s)
 				}
-				if err != nil || firstDiff(b, op.val) >= 0 || l != 4+len(op.val) {
+				if err != nil || firstDiff(b, op.val) >= 0 || l != wantL {
 					c.Fail("VALUE_MISMATCH", "Read/Binary", sim.F{}, "decode of a %d-byte value failed: err=%v consumed=%d", len(op.val), err, l)
 				}
 				res = append(res, fnv(b, l, err != nil))
@@ -218,7 +232,10 @@ func c16Pass(c *sim.Ctx, ops []c16Op, script []int, scfg sim.SourceCfg, span boo
 				var err error
 				var s string
 				var b []byte
-				if op.binary {
+				if op.msg {
+					c.GuardNoOOM("ReadMessageBegin/BufferReader", func() { s, _, _, err = br.ReadMessageBegin() })
+					b = []byte(s)
+				} else if op.binary {
 					c.GuardNoOOM("ReadBinary/BufferReader", func() { b, err = br.ReadBinary() })
 				} else {
 					c.GuardNoOOM("ReadString/BufferReader", func() { s, err = br.ReadString() })
